@@ -3,7 +3,7 @@
 From Coq Require Import List NArith Bool Lia ZifyBool ZifyN ZifyNat.
 Import ListNotations.
 From RX Require Import Generated.
-From RX.Model Require Import Base CharClass Stream Tokenizer.
+From RX.Model Require Import Base CharClass Stream Tokenizer Doc Builder Parse.
 From RX.Proofs Require Import TermStream.
 Open Scope N_scope.
 
@@ -42,20 +42,8 @@ Proof.
   exists b0, b1, b2, b3, r. repeat split; auto; lia.
 Qed.
 
-Lemma encode_lt_128 c x r : encode_utf8 c = x :: r -> 128 <= x -> 128 <= c.
-Proof.
-  unfold encode_utf8. destruct (c <? 128) eqn:E; [|lia].
-  intros [= <- <-]. lia.
-Qed.
-
 Lemma bytes_eqb_head a x y l : bytes_eqb (a :: x) (y :: l) = true -> a = y.
 Proof. cbn [bytes_eqb]. intros H. apply andb_prop in H. destruct H as [H _]. lia. Qed.
-
-Lemma encode_nonempty c : exists x r, encode_utf8 c = x :: r.
-Proof.
-  unfold encode_utf8. destruct (c <? 128); [eauto|]. destruct (c <? 2048); [eauto|].
-  destruct (c <? 65536); eauto.
-Qed.
 
 Ltac cont_contra :=
   match goal with
@@ -118,9 +106,10 @@ Definition overlong_lt_text : bytes := [60; 97; 62; 192; 188].
 Theorem termination_needs_valid_utf8 :
   valid_utf8_b overlong_lt_text = false /\
   ~ safe overlong_lt_text /\
-  parse_document overlong_lt_text unit (fun _ c => Ok c) false tt = OutOfFuel.
+  parse_document overlong_lt_text unit (fun _ c => Ok c) false tt = OutOfFuel /\
+  parse_default overlong_lt_text = OutOfFuel.
 Proof.
-  split; [vm_compute; reflexivity|]. split; [|vm_compute; reflexivity].
+  split; [vm_compute; reflexivity|]. split; [|split; vm_compute; reflexivity].
   intros H. specialize (H 3%nat 192 [188] 60 2 eq_refl).
   assert (E : decode1 [192; 188] = Some (60, 2)) by (vm_compute; reflexivity).
   specialize (H E eq_refl). discriminate.
